@@ -59,6 +59,10 @@ class NamedVertex(Vertex):
     def __str__(self):
         return "named-vertex"
 
+class SlotVertex(Vertex):
+    """a Vertex subclass that also declares __slots__ (its slot values are part of its state)"""
+    __slots__ = ("payload", "peer")
+
 class HarnessFault(Exception):
     """raised by a user call-back at its injected fault point"""
 
